@@ -1,8 +1,10 @@
 import OxyModel.Props.C18
 #print axioms C18.C18_env_values
 #print axioms C18.C18_window
+#print axioms C18.C18_window_fused
 #print axioms C18.C18_eval_standard
 #print axioms C18.C18_eval_standard_general
 #print axioms C18.C18_trips_iff
+#print axioms C18.C18_trips_iff_fused
 #print axioms C18.C18_trip_clears_metrics
 #print axioms C18.C18_effects_once
